@@ -402,6 +402,8 @@ pub struct Sim {
     clock_idx: u64,
     probe_idx: u64,
     hard_faults: u32,
+    /// paths on which a sticky write fault fired: every further write fails with the same errno (the disk stays full / broken)
+    broken_write_paths: BTreeMap<String, i32>,
     addr_ids: BTreeMap<usize, u32>,
     pct_points: Vec<u64>,
     sync_demotions: u32,
@@ -804,6 +806,7 @@ pub fn start(cfg: SimCfg, dec: Decider, fatal_fd: i32) {
         clock_idx: 0,
         probe_idx: 0,
         hard_faults: 0,
+        broken_write_paths: BTreeMap::new(),
         addr_ids: BTreeMap::new(),
         pct_points: vec![],
         sync_demotions: 0,
@@ -1492,6 +1495,10 @@ pub fn hook_write(fd: i32, buf: &[u8]) -> Option<Result<usize, i32>> {
         (o.path.clone(), o.pos, o.append)
     };
     let mut n = buf.len();
+    if let Some(errno) = s.broken_write_paths.get(&path).copied() {
+        s.ev(me, Pt::Write, idx, u64::MAX - 3);
+        return Some(Err(errno));
+    }
     if !s.quiet && n > 0 && path_faultable(s, &path) {
         let mask = s.cfg.faults;
         let rate = s.cfg.io_fault_rate;
@@ -1518,7 +1525,8 @@ pub fn hook_write(fd: i32, buf: &[u8]) -> Option<Result<usize, i32>> {
                 return None;
             }
             let k = *r.pick(&kinds);
-            let arg = if k == "short_write" { if r.chance(0.3) { 1 } else { 1 + r.below(nn - 1) } } else { 0 };
+            // hard write faults: 1 = sticky (the disk stays full / the medium stays broken)
+            let arg = if k == "short_write" { if r.chance(0.3) { 1 } else { 1 + r.below(nn - 1) } } else if k == "eio_write" || k == "enospc_write" { r.below(2) } else { 0 };
             Some((k, arg))
         });
         if let Some((k, arg)) = f {
@@ -1531,11 +1539,17 @@ pub fn hook_write(fd: i32, buf: &[u8]) -> Option<Result<usize, i32>> {
                 }
                 "eio_write" => {
                     s.hard_faults += 1;
+                    if arg == 1 {
+                        s.broken_write_paths.insert(path.clone(), libc::EIO);
+                    }
                     s.ev(me, Pt::Write, idx, u64::MAX - 1);
                     return Some(Err(libc::EIO));
                 }
                 "enospc_write" => {
                     s.hard_faults += 1;
+                    if arg == 1 {
+                        s.broken_write_paths.insert(path.clone(), libc::ENOSPC);
+                    }
                     s.ev(me, Pt::Write, idx, u64::MAX - 2);
                     return Some(Err(libc::ENOSPC));
                 }
